@@ -237,6 +237,43 @@ fn clause_curr_line<const N: usize>() {
     core::mem::forget(dec);
 }
 
+/// Non-ASCII white space before a comment: a concrete Unicode white-space character
+/// (U+00A0, U+3000, U+2003, U+0085) followed by 3 symbolic ASCII bytes; U+200B is NOT white space.
+fn clause_skip_unicode_ws(prefix: &'static str, is_ws: bool) {
+    let p = prefix.as_bytes();
+    let mut buf = [0u8; 8];
+    let mut i = 0;
+    while i < p.len() {
+        buf[i] = p[i];
+        i += 1;
+    }
+    let mut tail = [0u8; 3];
+    let mut i = 0;
+    while i < 3 {
+        let b: u8 = kani::any();
+        kani::assume(b < 0x80);
+        tail[i] = b;
+        buf[p.len() + i] = b;
+        i += 1;
+    }
+    let line = unsafe { core::str::from_utf8_unchecked(&buf[..p.len() + 3]) };
+    // the line is not empty; after the (white-space) prefix the ASCII rule decides
+    let want = if is_ws {
+        let mut k = 0;
+        while k < 3 && rf::is_ascii_ws(tail[k]) {
+            k += 1;
+        }
+        k + 1 < 3 && tail[k] == b'/' && tail[k + 1] == b'/'
+    } else {
+        false
+    };
+    assert!(<Beatmap as DecodeBeatmap>::should_skip_line(line) == want);
+    if is_ws {
+        kani::cover!(want, "comment after non-ASCII white space is skipped");
+    }
+    kani::cover!(!want, "record");
+}
+
 macro_rules! c05 {
     ($name:ident, $unwind:expr, $body:expr) => {
         #[kani::proof]
@@ -255,6 +292,12 @@ c05!(c05_skip_ascii5, 8, clause_skip::<5>(false));
 // @verif property=C05 tier=thorough timeout=2400 mem=16 bounds="should_skip_line (via Beatmap) on every ASCII line of <= 8 bytes"
 c05!(c05_skip_ascii8, 11, clause_skip::<8>(false));
 
+// @verif property=C05 tier=quick timeout=900 bounds="should_skip_line on U+3000 (ideographic space) + every 3-byte ASCII tail"
+c05!(c05_skip_ws_u3000, 10, clause_skip_unicode_ws("\u{3000}", true));
+// @verif property=C05 tier=quick timeout=900 bounds="should_skip_line on U+00A0 (no-break space) + every 3-byte ASCII tail"
+c05!(c05_skip_ws_u00a0, 10, clause_skip_unicode_ws("\u{a0}", true));
+// @verif property=C05 tier=quick timeout=900 bounds="should_skip_line on U+200B (zero width space: not white space) + every 3-byte ASCII tail" covers=1
+c05!(c05_skip_not_ws_u200b, 10, clause_skip_unicode_ws("\u{200b}", false));
 // @verif property=C05 tier=quick timeout=900 bounds="Section::try_from_line on every ASCII line of <= 14 bytes (symbolic length; covers all 11 header names)"
 c05!(c05_section_ascii14, 17, clause_section::<14>());
 // @verif property=C05 tier=quick timeout=900 bounds="each of the 11 real headers with one symbolic ASCII byte inserted at a symbolic position (indentation, suffix, infix)"
